@@ -349,3 +349,59 @@ def gen_skipdef(repo):
             f"/-- `make_definitions` (writer.py line {wfn.lineno}), null-free v1 block: 4-byte length, varint(l << shift), one byte `value` -/\n"
             f"def lenPrefix : Nat := 4\ndef shift : Nat := {m.group(1)}\ndef value : Nat := {m2.group(1)}\n"
             "end PqV.Gen.SkipDef\n")
+
+
+@register("SchemaLevels")
+def gen_schemalevels(repo):
+    """schema.py SchemaHelper: which repetition types make a path element count for `is_required`,
+    `max_definition_level` and `max_repetition_level` (REQUIRED = 0, OPTIONAL = 1, REPEATED = 2)."""
+    src = open(os.path.join(repo, "fastparquet", "schema.py")).read()
+    tree = ast.parse(src)
+    code = {"REQUIRED": 0, "OPTIONAL": 1, "REPEATED": 2}
+
+    def test_of(fname, effect):
+        """the single `if <x>.repetition_type (==|!=) FieldRepetitionType.<NAME>:` of the loop, with its effect"""
+        fns = [n for n in ast.walk(tree) if isinstance(n, ast.FunctionDef) and n.name == fname]
+        if len(fns) != 1:
+            raise Unsupported(f"schema.py: expected exactly one function {fname}")
+        fn = fns[0]
+        loops = [n for n in ast.walk(fn) if isinstance(n, ast.For)]
+        if len(loops) != 1:
+            raise Unsupported(f"{fname}: expected one loop over the path")
+        ifs = [n for n in ast.walk(loops[0]) if isinstance(n, ast.If)]
+        if len(ifs) != 1:
+            raise Unsupported(f"{fname}: expected one test inside the loop")
+        t = ifs[0].test
+        if not (isinstance(t, ast.Compare) and len(t.ops) == 1 and isinstance(t.ops[0], (ast.Eq, ast.NotEq))
+                and ast.unparse(t.left).endswith(".repetition_type")
+                and ast.unparse(t.comparators[0]).startswith("parquet_thrift.FieldRepetitionType.")):
+            raise Unsupported(f"{fname}: the repetition-type test has an unknown shape: {ast.unparse(t)}")
+        name = ast.unparse(t.comparators[0]).rsplit(".", 1)[1]
+        if name not in code:
+            raise Unsupported(f"{fname}: unknown repetition type {name}")
+        body = ast.unparse(ifs[0].body[0]).replace(" ", "")
+        if effect == "false":
+            if body != "required=False":
+                raise Unsupported(f"{fname}: the test no longer sets required = False ({body})")
+            if "return required" not in ast.unparse(fn) or "required = True" not in ast.unparse(fn):
+                raise Unsupported(f"{fname}: initial value / return of `required` changed")
+        elif body != "max_level+=1":
+            raise Unsupported(f"{fname}: the test no longer increments max_level ({body})")
+        op = "==" if isinstance(t.ops[0], ast.Eq) else "!="
+        return f"rt {op} {code[name]}", ifs[0].lineno
+    rq, l1 = test_of("is_required", "false")
+    rp, l2 = test_of("max_repetition_level", "inc")
+    df, l3 = test_of("max_definition_level", "inc")
+    return ("-- REGENERATED on every run by tools/translate_callsites.py from fastparquet/schema.py — do not edit\n"
+            "namespace PqV.Gen.SchemaLevels\n"
+            "/-! repetition types: REQUIRED = 0, OPTIONAL = 1, REPEATED = 2 -/\n"
+            f"/-- `is_required` (line {l1}): a path element for which this holds makes the path not required -/\n"
+            f"def reqTest (rt : Nat) : Bool := {rq}\n"
+            f"/-- `max_repetition_level` (line {l2}): a path element for which this holds adds a repetition level -/\n"
+            f"def repTest (rt : Nat) : Bool := {rp}\n"
+            f"/-- `max_definition_level` (line {l3}): a path element for which this holds adds a definition level -/\n"
+            f"def defTest (rt : Nat) : Bool := {df}\n"
+            "def isRequired (path : List Nat) : Bool := path.all (fun rt => !reqTest rt)\n"
+            "def maxRep (path : List Nat) : Nat := (path.filter repTest).length\n"
+            "def maxDef (path : List Nat) : Nat := (path.filter defTest).length\n"
+            "end PqV.Gen.SchemaLevels\n")
